@@ -1,5 +1,7 @@
 import Op2Proofs.SliceNesting
 import Op2Proofs.SysLemmas
+import Op2Model.Vol
+import Op2Model.Clm
 /-!
 # C13 — slices are confined, independent, and equivalent across stream backends
 -/
@@ -149,5 +151,54 @@ example : let objs : Sys := [Rd.mem { data := [10, 11, 12, 13, 14, 15], pos := 0
                                  (2, .op (.read 2)), (1, .op (.seek 0)), (0, .op (.read 4)), (0, .op (.read 3))]
     ((Sys.run objs h).2.map fun o => (o.pos, o.len)) = [(6, 6), (0, 4), (2, 2)] ∧
     (projOuts 0 (Sys.run objs h).1).length = 5 := by decide
+
+/-! ## archive member streams are such slices
+
+`VolFile::OpenStream` hands out a `FileSliceReader` over the archive file.  The VOL model (`Op2Model/Vol.lean`, tied to the
+code by the C01/C02/C05 runs) describes its construction a second time, independently, as `View.slice`; this theorem
+identifies the two descriptions, so a member stream is an `Rd.fsl` object of `Sys` and everything above applies to it. -/
+
+theorem C13_member_stream_is_slice (file : Bytes) (hf : file.length < W64) (start len : Nat) (hs : start < W64) (hl : len < W64) :
+    (start + len ≤ file.length →
+      Vol.View.slice file start len = .ok ((file.drop start).take len) ∧
+      ∃ s, Slice.create fileWrapped { data := file, pos := 0 } start len = .ok s ∧ sliceGood RSpec.Inv id s ∧
+        sliceAbs id s = { data := (file.drop start).take len, pos := 0 }) ∧
+    (¬ start + len ≤ file.length →
+      Vol.View.slice file start len = .error (.err .bounds) ∧
+      Slice.create fileWrapped { data := file, pos := 0 } start len = .error .bounds) := by
+  have hi : RSpec.Inv ({ data := file, pos := 0 } : RSpec) := ⟨Nat.zero_le _, hf⟩
+  constructor
+  · intro hfit
+    refine ⟨?_, slice_create_ok fileWrappedOK _ hi start len hfit⟩
+    unfold Vol.View.slice
+    rw [if_neg (by unfold W64 at *; omega), if_neg (by omega)]
+  · intro hout
+    refine ⟨?_, slice_create_err fileWrappedOK _ hi start len hs hl hout⟩
+    unfold Vol.View.slice
+    by_cases c : len > W64 - 1 - start
+    · rw [if_pos c]
+    · rw [if_neg c, if_pos (by omega)]
+
+/-- the same for `ClmFile::OpenStream` (`Clm.extent`, which states the bound in ℕ) -/
+theorem C13_clm_member_stream_is_slice (file : Bytes) (hf : file.length < W64) (off len : Nat) (hs : off < W64) (hl : len < W64) :
+    (∀ b, Clm.extent file off len = .ok b →
+      ∃ s, Slice.create fileWrapped { data := file, pos := 0 } off len = .ok s ∧ sliceGood RSpec.Inv id s ∧
+        sliceAbs id s = { data := b, pos := 0 }) ∧
+    (Clm.extent file off len = .error .bounds →
+      Slice.create fileWrapped { data := file, pos := 0 } off len = .error .bounds) := by
+  have hi : RSpec.Inv ({ data := file, pos := 0 } : RSpec) := ⟨Nat.zero_le _, hf⟩
+  unfold Clm.extent
+  constructor
+  · intro b hb
+    split at hb
+    · rename_i hfit
+      cases hb
+      exact slice_create_ok fileWrappedOK _ hi off len hfit
+    · cases hb
+  · intro he
+    split at he
+    · cases he
+    · rename_i hout
+      exact slice_create_err fileWrappedOK _ hi off len hs hl hout
 
 end Op2.Props.C13
